@@ -21,9 +21,8 @@ from ..framework import Check
 from ..client_common import FAM, run_worker, regen_or_report
 
 THEOREMS = ["C08_resync", "C08_resync_next", "C08_sequence", "C08_faithful", "C08_filter", "C08_no_fuel",
-            "C08_lost_refuted_rst_boundary", "C08_lost_refuted_raw_reset", "C08_lost_refuted_cut_in_drain",
-            "C08_lost_partial_header", "C08_lost_partial_payload", "C08_lost_eventually", "C08_disconnected_stays",
-            "C08_frames_wf", "C08_sequence_nonvacuous", "C08_lost_partial_nonvacuous"]
+            "C08_lost", "C08_lost_nonvacuous", "C08_disconnected_stays",
+            "C08_frames_wf", "C08_sequence_nonvacuous", "C08_lost_after_frame_nonvacuous"]
 
 # message definitions registered in the worker process: type id -> (payload size, version hash)
 T_GOOD, T_ZERO, T_UNSUB, T_ODD = 5001, 5002, 5003, 5004
@@ -44,8 +43,8 @@ Fixpoint hx (s : string) : list Z :=
 Fixpoint zl_eqb (a b : list Z) : bool :=
   match a, b with [], [] => true | x :: r, y :: s => (x =? y) && zl_eqb r s | _, _ => false end.
 Definition exc_code (e : exc) : Z :=
-  match e with EUnknown => 0 | EBadSize => 1 | EBadVersion => 2 | EConnLost => 3 | EConnReset => 4
-             | EValue => 5 | ENotConnected => 6 end.
+  match e with EUnknown => 0 | EBadSize => 1 | EBadVersion => 2 | EConnLost => 3
+             | EValue => 5 | ENotConnected => 6 end.   (* 4 = a raw ConnectionResetError: not producible by the model *)
 Definition flat_out (o : outcome) : list Z :=
   match o with
   | OMsg h p => (1 :: Z.of_nat (List.length h) :: h ++ Z.of_nat (List.length p) :: p)%list
@@ -256,7 +255,8 @@ def oracle(chk, case: dict, outs: List[list]):
         if o == strict:
             connected = False
             continue
-        # evaluate the decidable exclusions of C08_lost_partial_* on this input
+        # the loss was NOT reported as the property demands: a violation.  Name the class (these are the three
+        # classes fixed by 5577bbe - `fixed:` lines suppress nothing) so that a regression is recognisable
         remaining = 0 if stream_empty else cut_len
         if rst_pending and remaining == 0 and o == ["exc", "ConnectionLost", "", True]:
             chk.spec_failure("lost:rst-at-recv-boundary", f"reset with no byte pending: {o}", rep)
